@@ -29,7 +29,7 @@ def param_variants(rng, typ, thorough):
         if thorough:
             v += [["mult=1.001"], ["mult=5"]]
     if typ in ("atrie", "qatrie"):
-        v += [["bhiksha=%d" % rng.choice([0, 1, 2, 3, 5, 8, 22, 25])]]
+        v += [["bhiksha=%d" % rng.choice([0, 1, 2, 3, 5, 8, 22, 25, 57, 58, 64, 255])]]
         if thorough:
             v += [["bhiksha=%d" % b] for b in (0, 1, 4, 25)]
     if typ in ("qtrie", "qatrie"):
@@ -213,6 +213,29 @@ def run(ctx):
         if [transcript(l) for l in rt["lines"]] != [transcript(l) for l in rq["lines"]]:
             problems.append(("quant:lossless-claim:equal-population-bins", "2 distinct bigram probabilities, 2 bins, yet the quantised trie is lossy",
                              {"arpa": "corpus/C03/f5_q.arpa", "opts": ["probbits=1", "backoffbits=8"]}))
+    if not ctx.replay_model:
+        # "... the sort memory used while building the trie": a model whose highest order does not fit the builder's minimum sort
+        # buffer (several sort batches, every context in more than one) against the default buffer (one batch) and against probing
+        dm = lc.gen_dense_model(rng)
+        dsess = lc.Session(ctx, dm, "dense")
+        dqs = lc.gen_queries(rng, dm, ctx.pick(150, 1500))
+        dbase = {"arpa": dm.arpa_bytes().decode("latin-1"), "vocab": dm.vocab_bytes().decode("latin-1"), "generator": "lmcommon.gen_dense_model", "queries": dqs[:20]}
+        dref = None
+        for typ, opts in (("probing", []), ("trie", []), ("trie", ["building_memory=1048576"]), ("atrie", ["building_memory=1048576"])):
+            r = dsess.run_impl(lmq, typ, dqs, opts=opts, timeout=600)
+            stats["impl_runs"] += 1
+            if not r["head"].startswith("loaded") or len(r["lines"]) != len(dqs):
+                problems.append(("crash:dense:" + typ, "the dense multi-batch model does not load / answer: %s %s" % (r["head"][:100], r["err"][-200:]), dict(dbase, type=typ, opts=opts)))
+                continue
+            stats["dense_model_runs"] = stats.get("dense_model_runs", 0) + 1
+            full = [transcript(l, False) for l in r["lines"]]
+            if dref is None:
+                dref = (full, typ, opts)
+            elif dref[0] != full:
+                i = next(i for i in range(len(full)) if full[i] != dref[0][i])
+                problems.append(("spec:sort-memory-dependence:" + typ, "results of %s %r differ from %s %r on a model sorted in several batches" % (typ, opts, dref[1], dref[2]),
+                                 dict(dbase, type=typ, opts=opts, other=dref[1], query=dqs[i])))
+        shutil.rmtree(dsess.dir, ignore_errors=True)
     for mi in range(nmodels):
         big = (mi % 6 == 2)
         hub = (mi % 12 == 5)
@@ -235,6 +258,24 @@ def run(ctx):
                     continue
                 quant = typ in ("qtrie", "qatrie")
                 full = [transcript(l, quant) for l in r["lines"]]
+                # "... or the write method": the same build written to a binary file (either write method) and read back by a
+                # program that knows nothing of the build parameters answers the same (bin/query on files built with -a/-p/-q/-b/-S/-w)
+                if opts and rng.chance(1, 2):
+                    binf = os.path.join(sess.dir, "c03.%s.bin" % typ)
+                    wm = rng.choice(["mmap", "after"])
+                    wb = sess.run_impl(lmq, typ, qs, opts=list(opts) + ["write_mmap=" + binf, "write_method=" + wm])
+                    stats["impl_runs"] += 1
+                    if wb["head"].startswith("loaded") and os.path.exists(binf):
+                        rb = sess.run_impl(lmq, typ, qs, model_file=binf, opts=[])
+                        stats["impl_runs"] += 1
+                        stats["binary_roundtrips"] = stats.get("binary_roundtrips", 0) + 1
+                        if not rb["head"].startswith("loaded") or rb["lines"] != r["lines"]:
+                            problems.append(("spec:write-method-dependence:" + typ, "a binary built with %r (write method %s) and loaded with default settings answers differently from the build itself: %s" % (opts, wm, rb["head"][:80]),
+                                             dict(base, type=typ, opts=opts, write_method=wm)))
+                        try:
+                            os.remove(binf)
+                        except OSError:
+                            pass
                 pr = [transcript(l, probs_only=True) for l in r["lines"]]
                 stats["scores"] += sum(len(x) for x in full)
                 # (1) parameters never matter within one structure
@@ -262,8 +303,15 @@ def run(ctx):
                 else:
                     # (5) lossless whenever no order has more values than bins: with the default 8 bits every order of
                     #     these models has fewer entries than bins, so each value gets its own bin
-                    small = all(len(m.file_order.get(n, [])) * 2 < 250 for n in range(2, m.order + 1))
-                    if not opts and small and ("struct", "trie") in ref:
+                    pbits = bbits = 8
+                    for o in opts:
+                        if o.startswith("probbits="):
+                            pbits = int(o.split("=")[1])
+                        if o.startswith("backoffbits="):
+                            bbits = int(o.split("=")[1])
+                    only_bits = all(o.startswith(("probbits=", "backoffbits=")) for o in opts)
+                    small = all(len(m.file_order.get(n, [])) * 2 + 2 < min(1 << pbits, (1 << bbits) - 2) for n in range(2, m.order + 1))
+                    if only_bits and small and ("struct", "trie") in ref:
                         exact = [transcript(l, False) for l in r["lines"]]
                         if exact != ref[("struct", "trie")][0]:
                             problems.append(("spec:quant-lossless:" + typ, "quantised trie differs from the trie although every order has fewer values than bins",
@@ -300,6 +348,41 @@ def run(ctx):
                     tq = [[tuple(c01.strip_values(k, v) for k, v in zip(("fs", "st", "ff", "fst", "gs"), item)) for item in q] for q in ref[("struct", "trie")][0]]
                     if full != tq:
                         problems.append((sig, "backoff_bits=1 leaves no value bins: lengths/flags/states differ from the unquantised trie", dict(base, opts=opts)))
+        # ---- the same through the chart API (the property's quantifier: ExtendLeft, UnRest through RuleScore): derivation trees and
+        #      Subsume over the same sentences must give the same totals in every unquantised structure (and the same chart states
+        #      on a suffix-closed model); array tries only differ from tries once pointer compression chops bits, i.e. on big models
+        from . import c08 as c08m
+        ctrees = []
+        for _, sq in qs[:ctx.pick(25, 80)]:
+            sq = list(sq)[:8]
+            if not sq:
+                continue
+            for _k in range(2):
+                bos = rng.chance(1, 2)
+                ctrees.append("C " + " ".join(c08m.gen_tree(rng, sq, outer=True, bos=bos)))
+            if len(sq) >= 2:
+                cut = rng.range(1, len(sq) - 1)
+                ctrees.append("SUB %s ; %s" % (" ".join("%x" % w for w in sq[:cut]), " ".join("%x" % w for w in sq[cut:])))
+        cref = None
+        for typ in ("probing", "trie", "atrie"):
+            for opts in ([[]] + ([["bhiksha=%d" % rng.choice([0, 1, 3, 8, 64, 255])]] if typ == "atrie" else [])):
+                rc, out, err = vlib.sh([lmq, sess.arpa, typ, sess.vocab, "tmp=" + sess.dir + "/"] + opts, input=("\n".join(ctrees) + "\n").encode(), timeout=300)
+                stats["impl_runs"] += 1
+                res = out.split("\n")
+                if not res or not res[0].startswith("loaded"):
+                    continue
+                body = res[1:1 + len(ctrees)]
+                if len(body) != len(ctrees):
+                    problems.append(("crash:chart:" + typ, "driver died on a derivation / Subsume (rc=%d) %s" % (rc, err[-200:]), dict(base, type=typ, opts=opts)))
+                    continue
+                stats["chart_lines"] = stats.get("chart_lines", 0) + len(body)
+                view = [l if closed else l.split()[0] for l in body]
+                if cref is None:
+                    cref = (view, typ, opts)
+                elif cref[0] != view:
+                    i = next(i for i in range(len(view)) if view[i] != cref[0][i])
+                    problems.append(("spec:chart-differs:%s-vs-%s" % (typ, cref[1]), "RuleScore / Subsume results differ between structures: %s vs %s" % (view[i], cref[0][i]),
+                                     dict(base, type=typ, opts=opts, other=cref[1], line=ctrees[i])))
         nontrivial += 1 if m.order >= 3 else 0
         if mi < 2:
             ctx.sample({"order": m.order, "vocab": len(m.vocab), "ngrams": len(m.grams), "suffix_closed": closed, "first_query": qs[0]})
